@@ -5,6 +5,7 @@ package c12
 
 import (
 	"fmt"
+	"strings"
 	"testing"
 
 	"github.com/6tail/lunar-go/calendar"
@@ -246,6 +247,42 @@ var fortune = ev.Register(&ev.P[birthCase]{
 				}
 				if x.GetIndex() != k || x.GetYear() != yr || x.GetAge() != age || x.GetGanZhi() != ref.Pair(wx) {
 					return fmt.Errorf("%s: minor fortune period %d entry %d = year %d age %d %s, model says %d / %d / %s (hour pillar %s)", w, i, k, x.GetYear(), x.GetAge(), x.GetGanZhi(), yr, age, ref.Pair(wx), ref.Pair(e.hourP))
+				}
+			}
+		}
+		// the exported constructors of the fortune objects build the same objects the getters list
+		{
+			y3 := calendar.NewYun(ec, c.Gender, c.Sect)
+			if y3.GetStartYear() != e.y || y3.GetStartMonth() != e.m || y3.GetStartDay() != e.d || y3.GetStartHour() != e.h || y3.IsForward() != e.forward {
+				return fmt.Errorf("%s: NewYun reports %dy %dm %dd %dh forward=%v, the model %dy %dm %dd %dh %v", w, y3.GetStartYear(), y3.GetStartMonth(), y3.GetStartDay(), y3.GetStartHour(), y3.IsForward(), e.y, e.m, e.d, e.h, e.forward)
+			}
+			for _, i := range []int{0, 1, 1 + (t.D+t.H)%9} {
+				listed, built := dys[i], calendar.NewDaYun(y3, i)
+				sig := func(d *calendar.DaYun) string {
+					var sb strings.Builder
+					fmt.Fprintf(&sb, "%d %d-%d %d-%d %s|", d.GetIndex(), d.GetStartYear(), d.GetEndYear(), d.GetStartAge(), d.GetEndAge(), d.GetGanZhi())
+					lns := d.GetLiuNian()
+					for k, ln := range lns {
+						fmt.Fprintf(&sb, "%d:%d/%d/%s;", k, ln.GetYear(), ln.GetAge(), ln.GetGanZhi())
+						if k == 0 || k == len(lns)-1 {
+							for _, ly := range ln.GetLiuYue() {
+								sb.WriteString(ly.GetGanZhi())
+							}
+						}
+					}
+					for _, x := range d.GetXiaoYun() {
+						fmt.Fprintf(&sb, "%d/%s,", x.GetYear(), x.GetGanZhi())
+					}
+					if len(lns) > 0 {
+						k := (t.D + t.Mi) % len(lns)
+						ln := calendar.NewLiuNian(d, k)
+						xy := calendar.NewXiaoYun(d, k, e.forward)
+						fmt.Fprintf(&sb, "|new:%d/%s/%s %d/%s %s", ln.GetYear(), ln.GetGanZhi(), calendar.NewLiuYue(ln, 1+k%11).GetGanZhi(), xy.GetYear(), xy.GetGanZhi(), calendar.NewLiuYue(lns[k], 1+k%11).GetGanZhi())
+					}
+					return sb.String()
+				}
+				if a, b := sig(listed), sig(built); a != b {
+					return fmt.Errorf("%s: period %d built with NewDaYun differs from the one GetDaYun lists:\n listed: %.400s\n built:  %.400s", w, i, a, b)
 				}
 			}
 		}
